@@ -91,10 +91,16 @@ func decide(t *bfe_balance.BalTable) (map[string]string, error) {
 	return out, nil
 }
 
-// Run executes n differential histories and reports violations on r with the
-// given signature prefix. Returns the number of histories in which the reload
-// added a sub-cluster.
+// Run executes n differential histories at the gslb level (sub-cluster choice) and
+// n/5 histories of the sticky family at backend level (sticky.go), and reports
+// violations on r.
 func Run(r *vkit.Run, n int, scratch string) {
+	runGslb(r, n, scratch)
+	runSticky(r, n/5, scratch)
+}
+
+// runGslb executes n differential histories of gslb reloads.
+func runGslb(r *vkit.Run, n int, scratch string) {
 	for i := 0; i < n; i++ {
 		g := r.Rng("balhist", i)
 		steps := g.Range(1, 3)
